@@ -833,7 +833,7 @@ struct ml
     ident_v(c, "law:A(u+v)=Au+Av", A * (u + v), Au + Av);
     ident_v(c, "law:(AB)u=A(Bu)", (A * B) * u, A * (B * u));
     ident_v(c, "law:(A+B)u=Au+Bu", (A + B) * u, Au + B * u);
-    ident_s(c, "law:(Au).v=u.(A^T v)", fm::vector::dot(Au, fm::vector::static_<T, N>{v}),
+    ident_s(c, "law:(Au).v=u.(A^T*v)", fm::vector::dot(Au, fm::vector::static_<T, N>{v}),
             fm::vector::dot(fm::vector::static_<T, N>{u}, fm::matrix::transpose(A) * v));
     bool nz = false;
     for (auto x : p_mv(pa, pu))
